@@ -330,6 +330,27 @@ class Session:
             self.sr.close()
             self.sr.open()
 
+    def migrate(self, ctx, to, K=0):
+        """the reader follows its file: decompress_file / compress_file(keep_original=False) change the object in place,
+        open() then maps the new file; the reads that follow are reads of a bin / cbin reader like any other"""
+        if self.sr is None:
+            return
+        try:
+            if to == "bin":
+                self.sr.decompress_file(keep_original=False, quiet=True)
+            else:
+                self.sr.close()
+                self.sr.compress_file(keep_original=False, chunk_duration=K / self.sr.fs, check_after_compress=False, n_threads=1, quiet=True)
+            self.sr.open()
+        except Exception as e:
+            open_raised(ctx, self.rec, to, K, self.head["sort"], f"<the reader after {'de' if to == 'bin' else ''}compress_file>", e,
+                        self.head.get("hist"))
+            self.sr = None
+            return
+        self.fmt = to
+        self.head = dict(self.head, fmt=to, K=K)
+        self.cur = None
+
     def open(self):
         if self.sr is not None and not self.opened:
             self.sr.open()
@@ -582,7 +603,7 @@ def sample_axis(ctx, rnd, by_n):
                         csel = ALL
                     api = "getitem1" if (csel is ALL and sel["k"] != "list" and j % 2) else ("read" if j % 3 == 0 else "getitem2")
                     if csel is ALL and sel["k"] != "list" and j % 16 == 8:      # the column selector left to its default
-                        api = "read_samples_default" if (sel["k"] == "slice" and sel["s"] == NONE and j % 32 == 8) else "read_default"
+                        api = "read_samples_default" if (sel["k"] == "slice" and sel["s"] == NONE and j % 32 == 8 and rec["gen"]) else "read_default"
                     reads.append((api, sel, csel, form_of(j)))
                 trs += record_reads(ctx, rec, path, fmt, K, sort, reads)
                 if fmt == "cbin" and path is not None:
@@ -699,9 +720,11 @@ def history_axis(ctx, by_n, maxn, seed, quick):
                     csel = ALL
                 if (ses.fmt == "cbin" and nsel["k"] == "list") or (nsel["k"] == "list" and csel["k"] == "list"):
                     nsel = S(NONE, NONE, rnd.choice([NONE, -1, 2, -2]))
+                # (data, sync) calls only on probe files: the sync half of a nidq read is not this property's (it raises on an
+                # empty sample selection of a nidq file, whatever the data half does)
                 apis = ["getitem2", "getitem2", "read"] + (["read_sync"] if ses.rec["gen"] else [])
                 if csel is ALL and nsel["k"] != "list":
-                    apis += ["getitem1", "read_default"] + (["read_samples_default"] if nsel["k"] == "slice" and nsel["s"] == NONE else [])
+                    apis += ["getitem1", "read_default"] + (["read_samples_default"] if nsel["k"] == "slice" and nsel["s"] == NONE and ses.rec["gen"] else [])
                 call = (rnd.choice(apis), nsel, csel, rnd.choice([0, 0, 1, 2, 3, 4, 5]))
                 mine.append(call)
                 ses.read(*call)
@@ -743,6 +766,21 @@ def history_axis(ctx, by_n, maxn, seed, quick):
     talk(third, rounds)
     for ses in third:
         trs += ses.close()
+    # a reader that follows its file: made on p1/rec.ap.cbin (its .bin gone), decompressed in place, compressed in place
+    rec, K = recs[3]
+    if cbins[3] is not None:
+        rec["bin"].unlink()
+        for sort in (True, False):
+            ses = Session(ctx, rec, cbins[3], "cbin", K, sort, hist=hist)
+            talk([ses], rounds // 4)
+            ses.migrate(ctx, "bin")
+            talk([ses], rounds // 2)
+            ses.migrate(ctx, "cbin", 5 - K)
+            talk([ses], rounds // 2)
+            trs += ses.close()
+            K = 5 - K
+            if ses.sr is None:       # the reader was lost on the way (reported): the files are not where the next one expects them
+                break
     return trs
 
 
